@@ -26,6 +26,7 @@ type C16Scn struct {
 	BothReady  bool              `json:"both_ready"`          // park the caller before its select
 	CancelOn   string            `json:"cancel_on,omitempty"` // forced when a gate of this site class has parked
 	Pre        bool              `json:"pre,omitempty"`       // a cancelled request on an extension-bearing schema precedes the request
+	Ext        bool              `json:"ext,omitempty"`       // the judged schema has a (well-behaved, result-less) extension registered
 	Sticky     int               `json:"stickiness"`
 }
 
@@ -142,6 +143,7 @@ func (p c16) Gen(seed uint64, enum int, tier string) json.RawMessage {
 	}
 	s.Sticky = []int{0, 30, 60, 90}[r.Intn(4)]
 	s.Pre = r.Chance(30)
+	s.Ext = r.Chance(30)
 	if r.Chance(75) {
 		qi := 0
 		for i, q := range c16Queries {
@@ -217,7 +219,12 @@ func (c16) Run(t TestingT, scn json.RawMessage, tape *Tape) *Outcome {
 	var fakeStart time.Time
 	pan := Bubble(t, s, func() {
 		fakeStart = time.Now()
-		w := NewWorld("A")
+		var w *World
+		if sc.Ext {
+			w = NewWorld("A", &SimExt{N: "E1", R: &ExtRun{HasResult: map[string]bool{}}})
+		} else {
+			w = NewWorld("A")
+		}
 		w.GateScalars = true
 		parent, parentCancel := context.WithCancel(context.Background())
 		var ctx context.Context
